@@ -74,6 +74,11 @@ read as emissions whose key must contain the id of every task on the line (key b
 a link id that glues `p.id` and `t.id` together without a separator is refuted; a path that needs a section's group to be
 empty is infeasible (groups exist because a task was appended).
 
+Round 8: `sep.join(self.gen(..))` with a generator method is spliced as direct emissions (`yield V` -> `acc += V`, `yield from E`
+-> `acc += sep.join(E)`, a bare `return` ends the spliced block); the substitute() mapping may be the single trailing
+`return {..}` of a method of the class; a template filled by successive `text = text.replace('$x', value)` steps where an
+earlier value is computed by the class (task data) is refuted - inserted text is scanned again by the later replacements.
+
 Engine limitations worked around here (helpers below, nothing under sa/ was changed): string-building normalisation (`parts`),
 inlining of multi-statement single-return helpers (`deep`), path enumeration with event counts (`paths`, DESIGN 3.7 is not in
 sa/), structural loop nesting (`loop_chains`), accumulator recognition (`Acc`), a propositional evaluator for branch conditions,
@@ -788,6 +793,11 @@ class Canon:
             return True
         if j and isinstance(a, ast.Call) and isinstance(a.func, ast.Name) and a.func.id == 'map' and len(a.args) == 2:
             return True
+        if j and isinstance(a, ast.Call):
+            g = helper_of(self.ctx, self.f0, a)
+            if g is not None and g != self.f0 and isinstance(g.node, ast.FunctionDef) and \
+                    any(isinstance(n, (ast.Yield, ast.YieldFrom)) for n in walk_no_nested(g.node)):
+                return True
         return self.spliceable(a) is not None
 
     def text_names(self) -> set:
@@ -1027,6 +1037,15 @@ class Canon:
             if sep and not _ends_line(arg.elt):
                 body.append(self.emit(a, False, _marker(sep), st))
             return ([self.emit(a, True, ast.Constant(value=''), st)] if init else []) + body
+        if j and isinstance(arg, ast.Call):
+            g = helper_of(self.ctx, self.f0, arg)
+            if g is not None and g != self.f0 and isinstance(g.node, ast.FunctionDef) and \
+                    any(isinstance(n, (ast.Yield, ast.YieldFrom)) for n in walk_no_nested(g.node)):
+                blk = self.splice_generator(g, arg, st, a, sep)
+                if blk is None:
+                    self.dead.add(id(p))
+                    return None
+                return ([self.emit(a, True, ast.Constant(value=''), st)] if init else []) + blk
         h = self.spliceable(arg)
         if h is not None:
             def leaf(val):
@@ -1040,6 +1059,79 @@ class Canon:
             return ([self.emit(a, True, ast.Constant(value=''), st)] if init else []) + blk[0]
         self.dead.add(id(p))
         return None
+
+    def splice_generator(self, g: Func, call: ast.Call, at, a: str, sep: str) -> Optional[List[ast.stmt]]:
+        """`a += sep.join(self.g(..))`, g a generator: the statements of g with `yield V` -> `a += V`, `yield from E` ->
+        `a += sep.join(E)`, and a bare `return` ending the spliced block (the normaliser's guard-return restructuring)"""
+        from sa import normalize
+        if not self.checks_gen(g):
+            return None
+        sub = _bind(g, call)
+        if sub is None:
+            return None
+        node = copy.deepcopy(g.node)
+        ok = [True]
+
+        class T(ast.NodeTransformer):
+            def visit_FunctionDef(self, n):
+                return self.generic_visit(n) if n is node else n
+
+            def visit_Expr(self, st_):
+                v = st_.value
+                if isinstance(v, ast.Yield) and v.value is not None:
+                    return ast.copy_location(ast.Expr(value=ast.Call(func=_name('_emit_'), args=[v.value], keywords=[])), st_)
+                if isinstance(v, ast.YieldFrom):
+                    return ast.copy_location(ast.Expr(value=ast.Call(func=_name('_emit_from_'), args=[v.value], keywords=[])), st_)
+                return st_
+        T().visit(node)
+        if any(isinstance(n, (ast.Yield, ast.YieldFrom)) for n in ast.walk(node)) or \
+                any(isinstance(n, ast.Return) and n.value is not None and not (isinstance(n.value, ast.Constant) and n.value.value is None)
+                    for n in ast.walk(node)):
+            return None                          # a yield used as an expression / a generator return value
+        for n in ast.walk(node):
+            if isinstance(n, ast.Return):
+                n.value = None
+        ast.fix_missing_locations(node)
+        if self._nz is None:
+            self._nz = normalize.Normalizer({})
+            self._nz.counter = 900
+        fd = normalize.FD(g.qual, node, g.module.name, g.cls, 'static')
+        try:
+            blk = self._nz.block_of(fd, sub, None, at)
+        except Exception:
+            return None
+        if not blk:
+            return None
+        me = self
+
+        def rec(body):
+            out = []
+            for st_ in body:
+                if isinstance(st_, ast.Expr) and isinstance(st_.value, ast.Call) and isinstance(st_.value.func, ast.Name) and \
+                        st_.value.func.id in ('_emit_', '_emit_from_'):
+                    v = st_.value.args[0]
+                    if st_.value.func.id == '_emit_from_':
+                        v = ast.Call(func=ast.Attribute(value=ast.Constant(value=sep), attr='join', ctx=ast.Load()), args=[v], keywords=[])
+                    out.append(me.emit(a, False, _with_sep(v, sep), at))
+                    continue
+                for fld in ('body', 'orelse'):
+                    b_ = getattr(st_, fld, None)
+                    if isinstance(b_, list) and b_ and isinstance(b_[0], ast.stmt):
+                        setattr(st_, fld, rec(b_))
+                out.append(st_)
+            return out
+        new = rec(blk)
+        if sep:
+            new.append(self.emit(a, False, _marker(sep), at))
+        return new
+
+    def checks_gen(self, g: Func) -> bool:
+        if any(isinstance(n, (ast.Try, ast.With, ast.Lambda, ast.Global, ast.Nonlocal)) or
+               (isinstance(n, ast.FunctionDef) and n is not g.node) for n in ast.walk(g.node)):
+            return False
+        if any(isinstance(n, ast.Call) and helper_of(self.ctx, g, n) == g for n in ast.walk(g.node)):
+            return False
+        return True
 
     def comp_loops(self, comp, leaf, at) -> List[ast.stmt]:
         """`[E for x in X if c for y in Y]` as nested loops around leaf(E); the comprehension's variables get fresh names"""
@@ -1610,8 +1702,9 @@ def builder_comprehension(ctx, f: Func, call: ast.AST) -> Optional[ast.AST]:
             more = m['b'] if m else None
         elif isinstance(st, ast.AugAssign) and isinstance(st.op, ast.Add) and isinstance(st.target, ast.Name) and st.target.id == xs:
             more = st.value
-        elif isinstance(st, ast.Assign) and match(f"{xs} = {xs} + $b", st):
-            more = match(f"{xs} = {xs} + $b", st)['b']
+        elif isinstance(st, ast.Assign) and len(st.targets) == 1 and isinstance(st.targets[0], ast.Name) and \
+                st.targets[0].id == xs and match(f"{xs} + $b", st.value):
+            more = match(f"{xs} + $b", st.value)['b']
         if more is None:
             return None
         gens.append(ast.comprehension(target=_name('_each', True), iter=more, ifs=[], is_async=0))
@@ -1680,6 +1773,13 @@ def substitute_call(ctx, R):
         if isinstance(e, ast.Name) and e.id in mutated_locals(f):
             raise Und(f, c, e, "substitute() mapping is modified after its creation")
         d = origin(f, e, flow_of(f).node_of_expr(c))[0]
+        h = helper_of(ctx, f, d) if isinstance(d, ast.Call) else None
+        if h is not None and h != f and isinstance(h.node, ast.FunctionDef):
+            # the mapping is computed by a method of the class: its single trailing `return {..}` is the mapping
+            rets = [r for r in walk_no_nested(h.node) if isinstance(r, ast.Return)]
+            if len(rets) == 1 and h.body[-1] is rets[0] and rets[0].value is not None and \
+                    not (isinstance(rets[0].value, ast.Name) and rets[0].value.id in mutated_locals(h)):
+                d = origin(h, rets[0].value, flow_of(h).node_of_expr(rets[0].value))[0]
         if isinstance(d, ast.Call) and isinstance(d.func, ast.Name) and d.func.id == 'dict' and not d.args and \
                 all(k.arg is not None for k in d.keywords):
             return {k.arg: k.value for k in d.keywords}
@@ -1701,12 +1801,62 @@ def substitute_call(ctx, R):
     return f, c, m['t'], kws, returned
 
 
+def replace_filling(ctx, R):
+    """to_html fills the template by successive `text = text.replace('<placeholder>', value)` steps (statements, a loop over a
+    literal tuple of pairs, or a call chain): (to_html, [(placeholder expr, value expr, node)]) or None"""
+    f = ctx.prog.func(qual(R, 'to_html'))
+    rets = [r for r in walk_no_nested(f.node) if isinstance(r, ast.Return)]
+    if len(rets) != 1 or rets[0].value is None:
+        return None
+    steps = []
+
+    def chain(e):
+        """peel `.replace(a, b)` calls from an expression, innermost first"""
+        out = []
+        while isinstance(e, ast.Call) and isinstance(e.func, ast.Attribute) and e.func.attr == 'replace' and len(e.args) == 2:
+            out.append((e.args[0], e.args[1], e))
+            e = e.func.value
+        return e, out[::-1]
+    base, st0 = chain(rets[0].value)
+    if not isinstance(base, ast.Name):
+        return (f, st0) if st0 and match("$m.read_text($*_)", base) else None
+    x = base.id
+    for st in f.body:
+        if isinstance(st, ast.Assign) and len(st.targets) == 1 and isinstance(st.targets[0], ast.Name) and st.targets[0].id == x:
+            b, c_ = chain(st.value)
+            if isinstance(b, ast.Name) and b.id == x:
+                steps += c_
+        elif isinstance(st, ast.For) and isinstance(st.iter, (ast.Tuple, ast.List)) and isinstance(st.target, ast.Tuple) and \
+                len(st.target.elts) == 2 and all(isinstance(e_, ast.Name) for e_ in st.target.elts) and len(st.body) == 1:
+            ph, val = (e_.id for e_ in st.target.elts)
+            b0 = st.body[0]
+            m = isinstance(b0, ast.Assign) and len(b0.targets) == 1 and isinstance(b0.targets[0], ast.Name) and \
+                b0.targets[0].id == x and match(f"{x}.replace({ph}, {val})", b0.value)
+            if m and all(isinstance(e_, (ast.Tuple, ast.List)) and len(e_.elts) == 2 for e_ in st.iter.elts):
+                steps += [(e_.elts[0], e_.elts[1], st) for e_ in st.iter.elts]
+    steps += st0
+    return (f, steps) if steps else None
+
+
 def check_templates(ctx, o):
     for R in RENDERERS:
         try:
             f, c, tpl, kws, returned = substitute_call(ctx, R)
             rel, text = template_text(ctx, f, tpl)
         except Und as u:
+            rf = replace_filling(ctx, R)
+            if rf is not None and len(rf[1]) >= 2:
+                f_, steps = rf
+                early = next(((a_, v_, n_) for a_, v_, n_ in steps[:-1]
+                              if any(isinstance(x_, ast.Call) and helper_of(ctx, f_, x_) is not None for x_ in ast.walk(v_))), None)
+                if early is not None:
+                    later = ', '.join(src(a_) for a_, _, _ in steps[steps.index(early) + 1:])
+                    o.refute(f_, early[2], f"to_html: successive replace of {', '.join(src(a_) for a_, _, _ in steps)}",
+                             f"the template is filled by successive str.replace steps: the text inserted for {src(early[0])} "
+                             f"(`{src(early[1])[:40]}`, it contains task names / attributes) is scanned again by the replacement of "
+                             f"{later}, so such text inside a name is replaced too and alters that entry (expected one "
+                             f"Template.substitute call, which never re-reads inserted values)")
+                    continue
             o.undecided(u.func, u.node, u.construct, u.msg)
             continue
         if text is None:
